@@ -203,7 +203,7 @@ def check_tab(run: Run, prog: Program, ro: "Roles") -> None:
     cr = ro.cr
     run.analysed(cr.qual)
     d2: dict[str, set[str]] = {}
-    for p in enum_paths(cr.node):
+    for p in enum_paths(cr.node, opaque=True):
         cats = _category_on_path(p.facts, cr.params[2])
         if len(cats) > 1:
             continue
@@ -296,7 +296,7 @@ class Roles:
         self._val_calls: dict[str, list[ast.Call]] = {}
         per_cat: dict[str, set[str]] = {}
         if len(self.cr.params) > 2:
-            for p in enum_paths(self.cr.node):
+            for p in enum_paths(self.cr.node, opaque=True):
                 cats = _category_on_path(p.facts, self.cr.params[2])
                 if len(cats) != 1:
                     continue
